@@ -1,6 +1,8 @@
 package masks
 
 import (
+	"strings"
+
 	"github.com/mennanov/fmutils"
 	"google.golang.org/grpc/codes"
 	"google.golang.org/grpc/status"
@@ -14,8 +16,6 @@ type FieldUpdater struct {
 	updateMask          *fieldmaskpb.FieldMask
 	updateMaskFieldName string
 	resetMask           *fieldmaskpb.FieldMask
-
-	intersectionMask *fieldmaskpb.FieldMask
 }
 
 func NewFieldUpdater(opts ...FieldUpdaterOption) *FieldUpdater {
@@ -38,9 +38,10 @@ func (f *FieldUpdater) Validate(m proto.Message) error {
 
 		// are fields mentioned in the update mask actually writable?
 		if f.writableFields != nil {
-			common := f.fullMask()
-			if len(common.Paths) != len(f.updateMask.Paths) {
-				return status.Errorf(codes.InvalidArgument, "%v mentions read-only fields", f.updateMaskFieldName)
+			for _, path := range f.updateMask.Paths {
+				if !isWritablePath(path, f.writableFields.Paths) {
+					return status.Errorf(codes.InvalidArgument, "%v mentions read-only fields", f.updateMaskFieldName)
+				}
 			}
 		}
 	}
@@ -115,28 +116,15 @@ func pruneEmpty(dst, src proto.Message, mask fmutils.NestedMask) {
 	})
 }
 
-func (f *FieldUpdater) fullMask() *fieldmaskpb.FieldMask {
-	if f.intersectionMask == nil {
-		var nonNilMasks []*fieldmaskpb.FieldMask
-		if f.writableFields != nil {
-			nonNilMasks = append(nonNilMasks, f.writableFields)
-		}
-		if f.updateMask != nil {
-			nonNilMasks = append(nonNilMasks, f.updateMask)
-		}
-
-		switch len(nonNilMasks) {
-		case 0:
-			return nil
-		case 1:
-			f.intersectionMask = nonNilMasks[0]
-		case 2:
-			f.intersectionMask = fieldmaskpb.Intersect(nonNilMasks[0], nonNilMasks[1])
-		default:
-			f.intersectionMask = fieldmaskpb.Intersect(nonNilMasks[0], nonNilMasks[1], nonNilMasks[2:]...)
+// isWritablePath reports whether path is one of the writable paths or names a field inside one of them.
+// A path that is only a parent of writable paths also names fields that are not writable, so it is not writable.
+func isWritablePath(path string, writable []string) bool {
+	for _, w := range writable {
+		if path == w || strings.HasPrefix(path, w+".") {
+			return true
 		}
 	}
-	return f.intersectionMask
+	return false
 }
 
 type FieldUpdaterOption func(*FieldUpdater)
